@@ -2421,6 +2421,11 @@ class sptensor:
             updated_key = []
             for dim, entry in enumerate(key):
                 if isinstance(entry, (int, np.integer)) and entry < 0:
+                    if dim >= self.ndims or self.shape[dim] + entry < 0:
+                        raise IndexError(
+                            f"index {entry} is out of bounds for mode {dim} "
+                            f"of a tensor with shape {self.shape}"
+                        )
                     entry = self.shape[dim] + entry  # noqa: PLW2901
                 updated_key.append(entry)
             return self._set_subtensor(updated_key, value)
